@@ -103,6 +103,9 @@ func (b *Builder) event(c ssa.CallInstruction) (string, bool) {
 			}
 		}
 	}
+	if lengthPrefixedReader(callee) {
+		return "?Data", true
+	}
 	switch callee.String() {
 	case load.Module + "/ot.SendString":
 		return "!Data", true
@@ -764,3 +767,120 @@ func FlushIssues(n *NFA, entryDirty bool) (dirtyReceives []string, dirtyExit boo
 	}
 	return
 }
+
+// lengthPrefixedReader: f reads a 32-bit length n from a connection and then exactly n bytes, one ReceiveByte
+// per element of a buffer made with that length: on the wire that is the length-prefixed data of
+// Conn.ReceiveData, whatever checks f applies to n in between.
+func lengthPrefixedReader(f *ssa.Function) bool {
+	if f == nil || f.Blocks == nil || f.Pkg == nil || !strings.HasPrefix(f.Pkg.Pkg.Path(), load.Module) {
+		return false
+	}
+	var lenCall, byteCall *ssa.Call
+	for _, b := range f.Blocks {
+		for _, ins := range b.Instrs {
+			c, ok := ins.(*ssa.Call)
+			if !ok {
+				continue
+			}
+			callee := c.Call.StaticCallee()
+			name := ""
+			if callee != nil {
+				name = callee.Name()
+			} else if c.Call.IsInvoke() {
+				name = c.Call.Method.Name()
+			}
+			switch name {
+			case "ReceiveUint32":
+				if lenCall != nil {
+					return false
+				}
+				lenCall = c
+			case "ReceiveByte":
+				if byteCall != nil {
+					return false
+				}
+				byteCall = c
+			default:
+				if strings.HasPrefix(name, "Receive") || strings.HasPrefix(name, "Send") || name == "Fill" || name == "Flush" {
+					return false
+				}
+			}
+		}
+	}
+	if lenCall == nil || byteCall == nil || lenCall.Referrers() == nil {
+		return false
+	}
+	// the buffer made with the received length
+	derives := func(v ssa.Value) bool {
+		for d := 0; d < 4; d++ {
+			switch t := v.(type) {
+			case *ssa.Convert:
+				v = t.X
+			case *ssa.Extract:
+				return t.Tuple == ssa.Value(lenCall) && t.Index == 0
+			default:
+				return false
+			}
+		}
+		return false
+	}
+	var buf *ssa.MakeSlice
+	for _, b := range f.Blocks {
+		for _, ins := range b.Instrs {
+			if ms, ok := ins.(*ssa.MakeSlice); ok && derives(ms.Len) {
+				buf = ms
+			}
+		}
+	}
+	if buf == nil {
+		return false
+	}
+	// the byte read is stored into an element of that buffer, inside a loop bounded by its length
+	stored := false
+	if byteCall.Referrers() != nil {
+		for _, rf := range *byteCall.Referrers() {
+			ex, ok := rf.(*ssa.Extract)
+			if !ok || ex.Index != 0 || ex.Referrers() == nil {
+				continue
+			}
+			for _, r2 := range *ex.Referrers() {
+				if st, ok := r2.(*ssa.Store); ok {
+					if ia, ok := st.Addr.(*ssa.IndexAddr); ok && ia.X == ssa.Value(buf) {
+						stored = true
+					}
+				}
+			}
+		}
+	}
+	if !stored {
+		return false
+	}
+	// the loop: its header compares an index with len(buf) (a range loop) or with the length itself
+	body, header := loopBlocks(byteCall.Block())
+	if header == nil || !body[byteCall.Block()] {
+		return false
+	}
+	iff, ok := header.Instrs[len(header.Instrs)-1].(*ssa.If)
+	if !ok {
+		return false
+	}
+	bo, ok := iff.Cond.(*ssa.BinOp)
+	if !ok {
+		return false
+	}
+	for _, side := range []ssa.Value{bo.X, bo.Y} {
+		if derives(side) {
+			return true
+		}
+		if c, ok := side.(*ssa.Call); ok {
+			if bi, ok := c.Call.Value.(*ssa.Builtin); ok && bi.Name() == "len" && c.Call.Args[0] == ssa.Value(buf) {
+				return true
+			}
+		}
+	}
+	return false
+}
+
+// LengthPrefixedReader reports whether f reads a 32-bit length and then that many single bytes into a buffer of
+// that length (the wire form of Conn.ReceiveData).
+func LengthPrefixedReader(f *ssa.Function) bool { return lengthPrefixedReader(f) }
